@@ -117,9 +117,17 @@ def _(E, m, a, c0): return Seq([])
 @pattern(r'<(?:std::string::)?String as PartialEq(<.*>)?>::(eq|ne)|<str as PartialEq>::(eq|ne)|<&str as PartialEq(<.*>)?>::(eq|ne)')
 def _(E, m, a, c0):
     x, y = E.deref(a[0]), E.deref(a[1])
-    if isinstance(x, Opaque) or isinstance(y, Opaque):
-        if isinstance(x, Opaque) and isinstance(y, Opaque): r = z3.BoolVal(x.tag == y.tag)
-        else: raise Missing('string comparison with an opaque literal')
-    else: r = z3.BoolVal(_ascii(E, x) == _ascii(E, y))
+    def chars(v):
+        if isinstance(v, Ref): v = E.deref(v)
+        if isinstance(v, Opaque):
+            if not v.tag.startswith('str:"'): raise Missing('string comparison with an opaque (formatted) string')
+            body = v.tag[5:-1]; body = body.encode().decode('unicode_escape') if '\\' in body else body
+            return [z3.IntVal(b) for b in body.encode('utf-8')]
+        if isinstance(v, Seq): return list(v.fields)
+        raise Missing(f'string comparison on {v!r}'[:120])
+    if isinstance(x, Opaque) and isinstance(y, Opaque): r = z3.BoolVal(x.tag == y.tag)
+    else:
+        cx, cy = chars(x), chars(y)
+        r = z3.BoolVal(False) if len(cx) != len(cy) else z3.simplify(z3.And(*[p == q for p, q in zip(cx, cy)])) if cx else z3.BoolVal(True)
     ne = any(g == 'ne' for g in m.groups() if g)
     return z3.Not(r) if ne else r
